@@ -3,32 +3,37 @@
   Property theorems only (helper lemmas: Proofs/C13Lemmas.lean, Proofs/C13Interp.lean).
   The model (Model/Resample.lean, on Model/AP.lean and Model/Cal.lean) is tied to
   ladybug/datacollection.py by the correspondence ops of Drv/C13.lean (harness/props/c13.py).  It
-  describes the code with the seven repairs fixes/C13_*.patch.
+  describes the code with the ten repairs fixes/C13_*.patch.
 
   Coverage of the statement (clause → status):
     validation, same pairs ................ proved, all four classes, every header   (`*_perm`)
-    validation, sorted .................... proved for hourly: strictly increasing for non-wrapping
-                                            headers, rotated at the period end for wrapping ones
-                                            (`C13_validate_hourly_sorted`, `_rotated`); the coarser
-                                            classes: compared + oracle only
+    validation, sorted .................... proved, all four classes: strictly increasing, or for
+                                            wrapping headers rotated at the period end
+                                            (`C13_validate_hourly_sorted/_rotated`,
+                                            `C13_validate_{daily,monthly,mph}_sorted`)
     validation, duplicates rejected ....... proved, hourly (`C13_validate_hourly_rejects_duplicates`)
     validation, a single value ............ proved that the duplicate check cannot reject it
                                             (`C13_validate_single`); acceptance on examples
-    validation, period contains the data .. proved in part (`C13_validate_contains_partial`: grid of the
-                                            output timestep and hour window at hour level, every header);
-                                            the date range is compared + oracle only; recorded findings
-                                            (known_findings.d/C13.json) show where the code breaks it
-    hole filling .......................... proved in part (`C13_holes_partial`: one output block per
-                                            source value that ends with the source value, filled values
-                                            between the neighbouring source values, leading/trailing
-                                            copies, length = len(period)); that each source value lands
-                                            on its own step: compared + oracle only
+    validation, period contains the data .. proved at full strength (`AP.Pred` of the OUTPUT period, hence
+                                            membership in its enumeration) for every non-wrapping header
+                                            (`C13_validate_contains`) and for wrapping headers with the
+                                            whole-day window (`C13_validate_contains_wrapping`), data on the
+                                            hour or whole-day window; grid + hour level for every header
+                                            (`C13_validate_contains_partial`); the two excluded cases are the
+                                            recorded findings, with counterexample theorems.  Coarser
+                                            classes: compared + oracle only
+    hole filling .......................... proved at full strength (`C13_holes`): length, source values on
+                                            their own steps, leading/trailing copies, filled values between
+                                            the neighbouring source values – for every whole-day period,
+                                            through the year end as well
     refinement ............................ point-in-time `new[k·r] = old[k]`, totals of cumulative data,
                                             means of averaged data: proved (`C13_interp_*`)
     culling ............................... proved (`C13_cull`)
     time aggregation / rate of change ..... factor inverse proved (`C13_rate_of_aggregated`)
 -/
 import Ladybug.Proofs.C13Lemmas
+import Ladybug.Proofs.C13Contain
+import Ladybug.Proofs.C13Holes
 import Ladybug.Proofs.C13Interp
 import Ladybug.Props.C04
 import Mathlib.Tactic.FieldSimp
@@ -124,6 +129,107 @@ theorem C13_validate_hourly_rotated {α : Type} (ap : AP) (dl : Bool) (data : Li
       · have hxy := le_getLast_of_sorted (fun p : Nat × α => p.1) pre rest hs y hy x hx
         simp at hpy
         omega
+
+/-- **Daily validation sorts.**  The output days are strictly increasing, or – only for a wrapping
+    header that was not made annual – the sorted list rotated at the end day of the header: first
+    the run of days after the end day, then the run up to it, both strictly increasing. -/
+theorem C13_validate_daily_sorted {α : Type} (ap : AP) (data : List (Nat × α))
+    (v : Validated (Nat × α)) (h : validateDaily ap data = .ok v) :
+    (v.data.map (·.1)).Pairwise (· < ·) ∨
+    (ap.isReversed = true ∧ ∃ pre rest, sortByKey (fun p : Nat × α => p.1) data = pre ++ rest ∧
+      v.data = rest ++ pre ∧ (rest.map (·.1)).Pairwise (· < ·) ∧ (pre.map (·.1)).Pairwise (· < ·) ∧
+      (∀ x ∈ rest, ap.endTime.doy < x.1) ∧ (∀ x ∈ pre, x.1 ≤ ap.endTime.doy)) := by
+  obtain ⟨h1, h2⟩ := validateDaily_ok ap data v h
+  have hs := sortByKey_sorted (fun p : Nat × α => p.1) data
+  rcases reorder_order (fun k : Nat => k) ap.isReversed _ _ _ (fun a _ b _ hab => hab) hs h2 with
+    hc | ⟨hr, pre, rest, e1, e2, s1, s2, b1, b2⟩
+  · left; rw [h1]; exact hc
+  · right
+    refine ⟨hr, pre, rest, e1, by rw [h1, e2], s1, s2, ?_, ?_⟩
+    · intro x hx
+      have := b1 x hx
+      simp at this
+      exact this
+    · intro x hx
+      rcases b2 with rfl | ⟨y, hy, hpy⟩
+      · simp at hx
+      · have hxy := le_getLast_of_sorted (fun p : Nat × α => p.1) pre rest (e1 ▸ hs) y hy x hx
+        simp at hpy
+        omega
+
+/-- **Monthly validation sorts**: strictly increasing months, or – wrapping header, not made annual –
+    the sorted list rotated at the end month of the header. -/
+theorem C13_validate_monthly_sorted {α : Type} (ap : AP) (data : List (Nat × α))
+    (v : Validated (Nat × α)) (h : validateMonthly ap data = .ok v) :
+    (v.data.map (·.1)).Pairwise (· < ·) ∨
+    (ap.isReversed = true ∧ ∃ pre rest, sortByKey (fun p : Nat × α => p.1) data = pre ++ rest ∧
+      v.data = rest ++ pre ∧ (rest.map (·.1)).Pairwise (· < ·) ∧ (pre.map (·.1)).Pairwise (· < ·) ∧
+      (∀ x ∈ rest, ap.end_month < x.1) ∧ (∀ x ∈ pre, x.1 ≤ ap.end_month)) := by
+  obtain ⟨h1, h2⟩ := validateMonthly_ok ap data v h
+  have hs := sortByKey_sorted (fun p : Nat × α => p.1) data
+  rcases reorder_order (fun k : Nat => k) ap.isReversed _ _ _ (fun a _ b _ hab => hab) hs h2 with
+    hc | ⟨hr, pre, rest, e1, e2, s1, s2, b1, b2⟩
+  · left; rw [h1]; exact hc
+  · right
+    refine ⟨hr, pre, rest, e1, by rw [h1, e2], s1, s2, ?_, ?_⟩
+    · intro x hx
+      have := b1 x hx
+      simp at this
+      exact this
+    · intro x hx
+      rcases b2 with rfl | ⟨y, hy, hpy⟩
+      · simp at hx
+      · have hxy := le_getLast_of_sorted (fun p : Nat × α => p.1) pre rest (e1 ▸ hs) y hy x hx
+        simp at hpy
+        omega
+
+/-- **Monthly-per-hour validation sorts** (keys with hour and minute below 100, as every real key):
+    the output is strictly increasing in (month, hour, minute) – `mphKey` is the lexicographic
+    rank – or, for a wrapping header that was not made annual, the sorted list rotated after the
+    last key with `month ≤ end month ∧ hour ≤ end hour`: both runs strictly increasing, no key of
+    the first run passes that test, the last key of the second run does.  (The test is not monotone
+    in the key, so the second run may contain keys that fail it: recorded finding
+    C13-mph-wrapping-header-with-hour-window.) -/
+theorem C13_validate_mph_sorted {α : Type} (ap : AP) (data : List (MPH × α))
+    (v : Validated (MPH × α)) (h : validateMPH ap data = .ok v)
+    (hb : ∀ x ∈ data, x.1.2.1 < 100 ∧ x.1.2.2 < 100) :
+    (v.data.map fun x => mphKey x.1).Pairwise (· < ·) ∨
+    (ap.isReversed = true ∧ ∃ pre rest, sortByKey (fun p : MPH × α => mphKey p.1) data = pre ++ rest ∧
+      v.data = rest ++ pre ∧ (rest.map fun x => mphKey x.1).Pairwise (· < ·) ∧
+      (pre.map fun x => mphKey x.1).Pairwise (· < ·) ∧
+      (∀ x ∈ rest, ¬ (x.1.1 ≤ ap.end_month ∧ x.1.2.1 ≤ ap.end_hour)) ∧
+      (pre = [] ∨ ∃ y, pre.getLast? = some y ∧ y.1.1 ≤ ap.end_month ∧ y.1.2.1 ≤ ap.end_hour)) := by
+  obtain ⟨h1, h2⟩ := validateMPH_ok ap data v h
+  have hs := sortByKey_sorted (fun p : MPH × α => mphKey p.1) data
+  have hmem : ∀ x ∈ sortByKey (fun p : MPH × α => mphKey p.1) data, x ∈ data :=
+    fun x hx => (sortByKey_perm _ data).mem_iff.mp hx
+  have hinj : ∀ a ∈ sortByKey (fun p : MPH × α => mphKey p.1) data,
+      ∀ b ∈ sortByKey (fun p : MPH × α => mphKey p.1) data, mphKey a.1 = mphKey b.1 → a.1 = b.1 := by
+    intro a ha b hb' hab
+    have ba := hb a (hmem a ha)
+    have bb := hb b (hmem b hb')
+    unfold mphKey at hab
+    obtain ⟨⟨a1, a2, a3⟩, _⟩ := a
+    obtain ⟨⟨b1, b2, b3⟩, _⟩ := b
+    simp only at hab ba bb ⊢
+    have : a1 = b1 ∧ a2 = b2 ∧ a3 = b3 := by omega
+    rw [this.1, this.2.1, this.2.2]
+  rcases reorder_order mphKey ap.isReversed _ _ _ hinj hs h2 with
+    hc | ⟨hr, pre, rest, e1, e2, s1, s2, b1, b2⟩
+  · left; rw [h1]; exact hc
+  · right
+    refine ⟨hr, pre, rest, e1, by rw [h1, e2], s1, s2, ?_, ?_⟩
+    · intro x hx
+      have := b1 x hx
+      simpa using this
+    · rcases b2 with rfl | ⟨y, hy, hpy⟩
+      · left; rfl
+      · right
+        refine ⟨y, hy, ?_⟩
+        simpa using hpy
+
+#guard (validateMPH ⟨12, 1, 0, 2, 28, 23, 1, false⟩ [((1, 5, 0), 1), ((12, 3, 0), 2), ((2, 4, 30), 3)]).toOption.map
+  (fun v => (v.ap, v.data.map (·.1))) = some (⟨12, 1, 0, 2, 28, 23, 2, false⟩, [(12, 3, 0), (1, 5, 0), (2, 4, 30)])
 
 /-- **Duplicates are rejected**: a successful hourly validation means that no datetime occurred
     twice in the input. -/
@@ -238,6 +344,322 @@ theorem C13_validate_contains_partial {α : Type} (ap : AP) (dl : Bool) (data : 
       simp only [Option.getD] at hen
       omega
 
+/-- **The output period contains every datum – non-wrapping headers, at full strength.**
+    Header `ap` well-formed and not wrapping the year end (narrow, wide, annual, any hour window
+    incl. overnight, wrong timestep); the `DateTime`s carry the header's leap flag and lie in that
+    year; and either the header's hour window is the whole day or every datum is on the hour
+    (exactly the side condition of the recorded finding C13-hourly-minute-after-end-hour).  Then the
+    output period is well-formed and every output datetime satisfies the C04 membership predicate
+    `AP.Pred` of the OUTPUT period – hence (by `C04_mem_moys`) is one of its enumerated steps. -/
+theorem C13_validate_contains {α : Type} (ap : AP) (data : List (Nat × α))
+    (v : Validated (Nat × α)) (h : validateHourly ap ap.leap data = .ok v) (hwf : ap.WF)
+    (hyr : ∀ x ∈ data, x.1 < minutesInYear ap.leap) (hf : ap.isReversed = false)
+    (hmin : (ap.st_hour = 0 ∧ ap.end_hour = 23) ∨ ∀ x ∈ data, x.1 % 60 = 0) :
+    v.ap.WF ∧ (∀ x ∈ v.data, v.ap.Pred x.1) ∧ ∀ x ∈ v.data, x.1 ∈ v.ap.moys := by
+  have hpart := C13_validate_contains_partial ap ap.leap data v h
+  obtain ⟨h1, -, -, -⟩ := validateHourly_ok ap ap.leap data v h
+  obtain ⟨first, last, hfst, hlst, hmk⟩ := validateHourly_mk ap ap.leap data v h
+  have hg2 : (reorder ap.isReversed (fun p : Nat × α => decide (p.1 < ap.endMoy + 60))
+      (fun f : Nat × α => decide (doyOfMoy f.1 > ap.endTime.doy ∧ doyOfMoy f.1 < ap.stTime.doy))
+      (sortByKey (fun p : Nat × α => p.1) data)).2 = false := by
+    rw [hf]; simp [reorder]
+  have hg1 : (reorder ap.isReversed (fun p : Nat × α => decide (p.1 < ap.endMoy + 60))
+      (fun f : Nat × α => decide (doyOfMoy f.1 > ap.endTime.doy ∧ doyOfMoy f.1 < ap.stTime.doy))
+      (sortByKey (fun p : Nat × α => p.1) data)).1 = sortByKey (fun p : Nat × α => p.1) data := by
+    rw [hf]; exact reorder_fwd _ _ _
+  rw [hg1] at h1
+  have hs := sortByKey_sorted (fun p : Nat × α => p.1) data
+  have hmemS : ∀ x ∈ sortByKey (fun p : Nat × α => p.1) data, x ∈ data :=
+    fun x hx => (sortByKey_perm _ data).mem_iff.mp hx
+  have hfm : first ∈ sortByKey (fun p : Nat × α => p.1) data := List.mem_of_mem_head? hfst
+  have hlm : last ∈ sortByKey (fun p : Nat × α => p.1) data := List.mem_of_mem_getLast? hlst
+  have hfy := hyr first (hmemS first hfm)
+  have hly := hyr last (hmemS last hlm)
+  have hfle := head_le_of_sorted (fun p : Nat × α => p.1) _ hs first hfst
+  have hlle : ∀ x ∈ sortByKey (fun p : Nat × α => p.1) data, x.1 ≤ last.1 := by
+    intro x hx
+    have := le_getLast_of_sorted (fun p : Nat × α => p.1) (sortByKey (fun p : Nat × α => p.1) data) []
+      (by simpa using hs) last hlst x hx
+    simpa using this
+  obtain ⟨⟨w1, w2, w3, w4, w5, -⟩, ⟨w6, w7, w8, w9, w10, -⟩, -⟩ := hwf
+  simp only [AP.stTime, AP.endTime] at w1 w2 w3 w4 w5 w6 w7 w8 w9 w10
+  have hann : ap.isAnnual = true → ap.st_month = 1 ∧ ap.st_day = 1 ∧ ap.end_month = 12 ∧ ap.end_day = 31 := by
+    intro hA; unfold AP.isAnnual at hA; simp at hA; omega
+  -- the start date argument
+  have hS : ∃ sm sd, (1 ≤ sm ∧ sm ≤ 12 ∧ 1 ≤ sd ∧ sd ≤ monthLen ap.leap sm ∧
+        daysBefore ap.leap sm + sd ≤ first.1 / 1440 + 1) ∧
+      (if (ap.isReversed = false ∧ ap.isAnnual = false) ∧ doyOfMoy first.1 < ap.stTime.doy
+        then mdOf ap.leap first.1 else (ap.st_month, ap.st_day)) = (sm, sd) := by
+    by_cases c1 : (ap.isReversed = false ∧ ap.isAnnual = false) ∧ doyOfMoy first.1 < ap.stTime.doy
+    · obtain ⟨m1, m2, m3, m4, m5, -⟩ := mdOf_spec ap.leap first.1 hfy
+      exact ⟨_, _, ⟨m1, m2, m3, m4, by omega⟩, by rw [if_pos c1]⟩
+    · refine ⟨ap.st_month, ap.st_day, ⟨w1, w2, w3, w4, ?_⟩, by rw [if_neg c1]⟩
+      cases hA : ap.isAnnual
+      · have : ¬ doyOfMoy first.1 < ap.stTime.doy := fun hh => c1 ⟨⟨hf, hA⟩, hh⟩
+        unfold doyOfMoy at this
+        simp only [AP.stTime, doy_of_fields] at this
+        omega
+      · obtain ⟨a1, a2, -, -⟩ := hann hA
+        rw [a1, a2]; simp [daysBefore]
+  have hE : ∃ em ed, (1 ≤ em ∧ em ≤ 12 ∧ 1 ≤ ed ∧ ed ≤ monthLen ap.leap em ∧
+        last.1 / 1440 + 1 ≤ daysBefore ap.leap em + ed) ∧
+      (if (ap.isReversed = false ∧ ap.isAnnual = false) ∧ doyOfMoy last.1 > ap.endTime.doy
+        then mdOf ap.leap last.1 else (ap.end_month, ap.end_day)) = (em, ed) := by
+    by_cases c2 : (ap.isReversed = false ∧ ap.isAnnual = false) ∧ doyOfMoy last.1 > ap.endTime.doy
+    · obtain ⟨m1, m2, m3, m4, m5, -⟩ := mdOf_spec ap.leap last.1 hly
+      exact ⟨_, _, ⟨m1, m2, m3, m4, by omega⟩, by rw [if_pos c2]⟩
+    · refine ⟨ap.end_month, ap.end_day, ⟨w6, w7, w8, w9, ?_⟩, by rw [if_neg c2]⟩
+      cases hA : ap.isAnnual
+      · have : ¬ doyOfMoy last.1 > ap.endTime.doy := fun hh => c2 ⟨⟨hf, hA⟩, hh⟩
+        unfold doyOfMoy at this
+        simp only [AP.endTime, doy_of_fields] at this
+        omega
+      · obtain ⟨-, -, a3, a4⟩ := hann hA
+        rw [a3, a4]
+        have : last.1 / 1440 < daysInYear ap.leap := by unfold minutesInYear at hly; omega
+        cases hL : ap.leap <;> rw [hL] at this <;> simp [daysBefore, monthLens, daysInYear] at this ⊢ <;> omega
+  obtain ⟨sm, sd, ⟨s1, s2, s3, s4, s5⟩, hse⟩ := hS
+  obtain ⟨em, ed, ⟨t1, t2, t3, t4, t5⟩, hee⟩ := hE
+  -- the leap flag stays the header's
+  have hleap : (ap.leap || (sortByKey (fun p : Nat × α => p.1) data).any
+      fun p => decide (mdOf ap.leap p.1 = (2, 29))) = ap.leap := by
+    by_cases hL : ap.leap = true
+    · rw [hL]; rfl
+    · have hL' : ap.leap = false := by simpa using hL
+      rw [Bool.or_eq_left_iff_imp]  -- placeholder, replaced below
+      intro hany
+      exfalso
+      obtain ⟨x, hx, hdx⟩ := List.any_eq_true.mp hany
+      have := (mdOf_spec ap.leap x.1 (hyr x (hmemS x hx))).2.2.2.2.2 hL'
+      exact this (by simpa using hdx)
+  rw [hg2, hg1] at hmk
+  simp only [Bool.false_eq_true, if_false] at hmk
+  rw [hse, hee, hleap] at hmk
+  dsimp only at hmk
+  have hwf' := AP.C04_mk_wf _ _ _ _ _ _ _ _ _ hmk
+  obtain ⟨hWF, hlp, hsm, hsd, -, hem, -, -, hed⟩ := hwf'
+  have e1 : v.ap.st_month = sm := by simp only [AP.orD] at hsm; split at hsm <;> omega
+  have e2 : v.ap.st_day = sd := by simp only [AP.orD] at hsd; split at hsd <;> omega
+  have e3 : v.ap.end_month = em := by simp only [AP.orD] at hem; split at hem <;> omega
+  have e4 : v.ap.end_day = ed := by
+    rcases hed with hed | ⟨hlt, heq⟩
+    · simp only [AP.orD] at hed; split at hed <;> omega
+    · exfalso
+      simp only [AP.orD] at hlt
+      rw [e3] at heq
+      split at hlt <;> omega
+  have hpred : ∀ x ∈ v.data, v.ap.Pred x.1 := by
+    intro x hx
+    obtain ⟨p1, p2, p3⟩ := hpart x hx
+    rw [h1] at hx
+    have hxy := hyr x (hmemS x hx)
+    have hxf := hfle x hx
+    have hxl := hlle x hx
+    unfold hourOfMoy at p2 p3
+    have h23 : v.ap.end_hour ≤ 23 := hWF.2.1.2.2.2.2.1
+    have hmin' : (v.ap.st_hour = 0 ∧ v.ap.end_hour = 23) ∨ x.1 % 60 = 0 := by
+      rcases hmin with ⟨a, b⟩ | hm
+      · left
+        obtain ⟨-, -, -, -, hst, -, hen, -, -⟩ := AP.C04_mk_wf _ _ _ _ _ _ _ _ _ hmk
+        rw [if_neg (by intro hc; exact hc.2 a)] at hst
+        rw [if_neg (by intro hc; exact hc.2 b)] at hen
+        simp only [AP.orD, Option.getD] at hst hen
+        constructor
+        · split at hst <;> omega
+        · omega
+      · right; exact hm x (hmemS x hx)
+    unfold AP.Pred
+    refine ⟨by rw [hlp]; exact hxy, p1, ?_, ?_⟩
+    · unfold AP.inWindow
+      rw [if_pos (by omega)]
+      rcases hmin' with hfull | hm0
+      · right; exact hfull
+      · left; omega
+    · left
+      simp only [AP.stMoy, AP.endMoy, AP.stTime, AP.endTime, moy_of_fields, e1, e2, e3, e4, hlp]
+      refine ⟨?_, ?_, ?_⟩ <;> omega
+  refine ⟨hWF, hpred, ?_⟩
+  intro x hx
+  exact (AP.C04_mem_moys v.ap hWF x.1).mpr (hpred x hx)
+
+#guard (validateHourly ⟨6, 21, 22, 6, 23, 4, 1, false⟩ false [(246240 + 600, 1), (246240 - 1440, 2), (246240 + 3960, 3)]).toOption.map
+  (fun v => (v.ap, v.data.map fun p => v.ap.includesMoy p.1)) = some (⟨6, 20, 0, 6, 23, 18, 1, false⟩, [true, true, true])
+
+/-- **The output period contains every datum – wrapping headers with the whole-day window.**
+    Header well-formed, wrapping the year end, hour window 0..23 (the side condition of the recorded
+    finding C13-hourly-wrapping-header-with-hour-window), data in the header's year.  Whether the
+    period is kept or made annual, it is well-formed and every output datetime satisfies `AP.Pred`
+    of the output period, i.e. is one of its steps. -/
+theorem C13_validate_contains_wrapping {α : Type} (ap : AP) (data : List (Nat × α))
+    (v : Validated (Nat × α)) (h : validateHourly ap ap.leap data = .ok v) (hwf : ap.WF)
+    (hyr : ∀ x ∈ data, x.1 < minutesInYear ap.leap) (hr : ap.isReversed = true)
+    (hfull : ap.st_hour = 0 ∧ ap.end_hour = 23) :
+    v.ap.WF ∧ (∀ x ∈ v.data, v.ap.Pred x.1) ∧ ∀ x ∈ v.data, x.1 ∈ v.ap.moys := by
+  have hpart := C13_validate_contains_partial ap ap.leap data v h
+  obtain ⟨h1, -, -, -⟩ := validateHourly_ok ap ap.leap data v h
+  obtain ⟨first, last, hfst, hlst, hmk⟩ := validateHourly_mk ap ap.leap data v h
+  rw [hr] at h1 hmk
+  have hs := sortByKey_sorted (fun p : Nat × α => p.1) data
+  have hmemS : ∀ x ∈ sortByKey (fun p : Nat × α => p.1) data, x ∈ data :=
+    fun x hx => (sortByKey_perm _ data).mem_iff.mp hx
+  obtain ⟨⟨w1, w2, w3, w4, w5, -⟩, ⟨w6, w7, w8, w9, w10, -⟩, -⟩ := hwf
+  simp only [AP.stTime, AP.endTime] at w1 w2 w3 w4 w5 w6 w7 w8 w9 w10
+  obtain ⟨f0, f23⟩ := hfull
+  have hleap : ∀ (l : List (Nat × α)), (∀ x ∈ l, x ∈ data) →
+      (ap.leap || l.any fun p => decide (mdOf ap.leap p.1 = (2, 29))) = ap.leap := by
+    intro l hl
+    by_cases hL : ap.leap = true
+    · rw [hL]; rfl
+    · have hL' : ap.leap = false := by simpa using hL
+      rw [Bool.or_eq_left_iff_imp]
+      intro hany
+      exfalso
+      obtain ⟨x, hx, hdx⟩ := List.any_eq_true.mp hany
+      have := (mdOf_spec ap.leap x.1 (hyr x (hl x hx))).2.2.2.2.2 hL'
+      exact this (by simpa using hdx)
+  have hmemR : ∀ x ∈ (reorder true (fun p : Nat × α => decide (p.1 < ap.endMoy + 60))
+      (fun f : Nat × α => decide (doyOfMoy f.1 > ap.endTime.doy ∧ doyOfMoy f.1 < ap.stTime.doy))
+      (sortByKey (fun p : Nat × α => p.1) data)).1, x ∈ data :=
+    fun x hx => hmemS x ((reorder_perm _ _ _ _).mem_iff.mp hx)
+  rw [hleap _ hmemR] at hmk
+  rw [f0, f23] at hmk
+  simp only [Bool.true_eq_false, false_and, if_false, ne_eq, not_true_eq_false, and_false] at hmk
+  have hEnd : ap.endMoy + 60 = (daysBefore ap.leap ap.end_month + ap.end_day) * 1440 := by
+    simp only [AP.endMoy, AP.endTime, moy_of_fields, f23]; omega
+  have hSt : ap.stMoy = (daysBefore ap.leap ap.st_month + ap.st_day - 1) * 1440 := by
+    simp only [AP.stMoy, AP.stTime, moy_of_fields, f0]; omega
+  have hrevm : ap.endMoy < ap.stMoy := by
+    unfold AP.isReversed at hr
+    simp only [decide_eq_true_eq] at hr
+    simp only [AP.stMoy, AP.endMoy, DT.moy, AP.stTime, AP.endTime] at hr ⊢
+    omega
+  cases hgap : (reorder true (fun p : Nat × α => decide (p.1 < ap.endMoy + 60))
+      (fun f : Nat × α => decide (doyOfMoy f.1 > ap.endTime.doy ∧ doyOfMoy f.1 < ap.stTime.doy))
+      (sortByKey (fun p : Nat × α => p.1) data)).2
+  · -- the period is kept
+    rw [hgap] at hmk
+    simp only [Bool.false_eq_true, if_false] at hmk
+    have hwf' := AP.C04_mk_wf _ _ _ _ _ _ _ _ _ hmk
+    obtain ⟨hWF, hlp, hsm, hsd, hsh, hem, heh, -, hed⟩ := hwf'
+    have e1 : v.ap.st_month = ap.st_month := by simp only [AP.orD] at hsm; split at hsm <;> omega
+    have e2 : v.ap.st_day = ap.st_day := by simp only [AP.orD] at hsd; split at hsd <;> omega
+    have e3 : v.ap.end_month = ap.end_month := by simp only [AP.orD] at hem; split at hem <;> omega
+    have e5 : v.ap.st_hour = 0 := by simp only [AP.orD] at hsh; split at hsh <;> omega
+    have e6 : v.ap.end_hour = 23 := by simp only [Option.getD] at heh; omega
+    have e4 : v.ap.end_day = ap.end_day := by
+      rcases hed with hed | ⟨hlt, heq⟩
+      · simp only [AP.orD] at hed; split at hed <;> omega
+      · exfalso
+        simp only [AP.orD] at hlt
+        rw [e3] at heq
+        split at hlt <;> omega
+    have hrot : (reorder true (fun p : Nat × α => decide (p.1 < ap.endMoy + 60))
+        (fun f : Nat × α => decide (doyOfMoy f.1 > ap.endTime.doy ∧ doyOfMoy f.1 < ap.stTime.doy))
+        (sortByKey (fun p : Nat × α => p.1) data)).1 =
+        rotateAfterLast (fun p : Nat × α => decide (p.1 < ap.endMoy + 60))
+          (sortByKey (fun p : Nat × α => p.1) data) := by
+      exact reorder_rev_nogap _ _ _ hgap
+    obtain ⟨pre, rest, q1, q2, q3, q4⟩ := rotateAfterLast_split
+      (fun p : Nat × α => decide (p.1 < ap.endMoy + 60)) (sortByKey (fun p : Nat × α => p.1) data)
+    have hgapOf : gapOf (fun f : Nat × α => decide (doyOfMoy f.1 > ap.endTime.doy ∧ doyOfMoy f.1 < ap.stTime.doy))
+        (rest ++ pre) = false := by
+      simp only [reorder, Bool.true_and, if_true] at hgap
+      rw [q2] at hgap
+      exact hgap
+    have hpre : ∀ x ∈ pre, x.1 < ap.endMoy + 60 := by
+      intro x hx
+      rcases q4 with rfl | ⟨y, hy, hpy⟩
+      · simp at hx
+      · have := le_getLast_of_sorted (fun p : Nat × α => p.1) pre rest (q1 ▸ hs) y hy x hx
+        simp at hpy
+        omega
+    have hrest : ∀ x ∈ rest, ap.stMoy ≤ x.1 := by
+      intro x hx
+      cases hrl : rest with
+      | nil => rw [hrl] at hx; simp at hx
+      | cons r0 rt =>
+        rw [hrl] at hgapOf hx q3
+        simp only [gapOf, List.cons_append, List.head?_cons] at hgapOf
+        have hr0 : ap.endMoy + 60 ≤ r0.1 := by
+          have := q3 r0 (by simp)
+          simp at this; exact this
+        have hsr : (r0 :: rt).Pairwise (fun a b => a.1 ≤ b.1) := by
+          rw [← hrl]; exact (List.pairwise_append.mp (q1 ▸ hs)).2.1
+        have hr0x : r0.1 ≤ x.1 := by
+          rcases List.mem_cons.mp hx with rfl | hx'
+          · exact Nat.le_refl _
+          · exact (List.pairwise_cons.mp hsr).1 x hx'
+        simp only [doyOfMoy, AP.endTime, AP.stTime, doy_of_fields] at hgapOf
+        have hgo := of_decide_eq_false hgapOf
+        omega
+    have hpred : ∀ x ∈ v.data, v.ap.Pred x.1 := by
+      intro x hx
+      obtain ⟨p1, -, -⟩ := hpart x hx
+      rw [h1, hrot, q2] at hx
+      have hxS : x ∈ sortByKey (fun p : Nat × α => p.1) data := by
+        rw [q1]
+        rcases List.mem_append.mp hx with hx' | hx'
+        · exact List.mem_append_right _ hx'
+        · exact List.mem_append_left _ hx'
+      have hxy := hyr x (hmemS x hxS)
+      have hst' : v.ap.stMoy = ap.stMoy := by
+        simp only [AP.stMoy, AP.stTime, moy_of_fields, e1, e2, e5, hlp, f0]
+      have hen' : v.ap.endMoy = ap.endMoy := by
+        simp only [AP.endMoy, AP.endTime, moy_of_fields, e3, e4, e6, hlp, f23]
+      unfold AP.Pred
+      refine ⟨by rw [hlp]; exact hxy, p1, ?_, ?_⟩
+      · unfold AP.inWindow
+        rw [if_pos (by omega)]
+        right; exact ⟨e5, e6⟩
+      · right
+        rw [hst', hen']
+        refine ⟨hrevm, ?_⟩
+        rcases List.mem_append.mp hx with hx | hx
+        · left; exact hrest x hx
+        · right; exact hpre x hx
+    refine ⟨hWF, hpred, ?_⟩
+    intro x hx
+    exact (AP.C04_mem_moys v.ap hWF x.1).mpr (hpred x hx)
+  · -- the period is made annual
+    rw [hgap] at hmk
+    simp only [if_true] at hmk
+    have hwf' := AP.C04_mk_wf _ _ _ _ _ _ _ _ _ hmk
+    obtain ⟨hWF, hlp, hsm, hsd, hsh, hem, heh, -, hed⟩ := hwf'
+    have e1 : v.ap.st_month = 1 := by simp only [AP.orD] at hsm; split at hsm <;> omega
+    have e2 : v.ap.st_day = 1 := by simp only [AP.orD] at hsd; split at hsd <;> omega
+    have e3 : v.ap.end_month = 12 := by simp only [AP.orD] at hem; split at hem <;> omega
+    have e5 : v.ap.st_hour = 0 := by simp only [AP.orD] at hsh; split at hsh <;> omega
+    have e6 : v.ap.end_hour = 23 := by simp only [Option.getD] at heh; omega
+    have e4 : v.ap.end_day = 31 := by
+      rcases hed with hed | ⟨hlt, heq⟩
+      · simp only [AP.orD] at hed; split at hed <;> omega
+      · exfalso
+        simp only [AP.orD] at hlt
+        rw [e3] at heq
+        have : monthLen ap.leap 12 = 31 := by cases ap.leap <;> rfl
+        split at hlt <;> omega
+    have hpred : ∀ x ∈ v.data, v.ap.Pred x.1 := by
+      intro x hx
+      obtain ⟨p1, -, -⟩ := hpart x hx
+      rw [h1] at hx
+      have hxy := hyr x (hmemR x hx)
+      unfold AP.Pred
+      refine ⟨by rw [hlp]; exact hxy, p1, ?_, ?_⟩
+      · unfold AP.inWindow
+        rw [if_pos (by omega)]
+        right; exact ⟨e5, e6⟩
+      · left
+        simp only [AP.stMoy, AP.endMoy, AP.stTime, AP.endTime, moy_of_fields, e1, e2, e3, e4, e5, e6, hlp]
+        unfold minutesInYear at hxy
+        cases hL : ap.leap <;> rw [hL] at hxy <;> simp [daysBefore, monthLens, daysInYear] at hxy ⊢ <;> omega
+    refine ⟨hWF, hpred, ?_⟩
+    intro x hx
+    exact (AP.C04_mem_moys v.ap hWF x.1).mpr (hpred x hx)
+
+#guard (validateHourly ⟨12, 30, 0, 1, 2, 23, 2, false⟩ false [(2 * 1440 - 30, 1), (363 * 1440, 2), (60, 3)]).toOption.map
+  (fun v => (v.ap, v.data, v.data.map fun p => v.ap.includesMoy p.1)) =
+  some (⟨12, 30, 0, 1, 2, 23, 2, false⟩, [(363 * 1440, 2), (60, 3), (2 * 1440 - 30, 1)], [true, true, true])
+
 -- the recorded finding: the window of the output period closes at 19:00, the datum is at 19:45
 #guard (validateHourly ⟨6, 21, 0, 6, 21, 12, 4, false⟩ false [(246840, 1), (247425, 2)]).toOption.map
   (fun v => (v.ap, v.ap.includesMoy 247425)) = some (⟨6, 21, 0, 6, 21, 19, 4, false⟩, false)
@@ -248,6 +670,15 @@ theorem C13_validate_contains_partial {α : Type} (ap : AP) (dl : Bool) (data : 
 theorem C13_validate_contains_counterexample :
     247425 % (⟨6, 21, 0, 6, 21, 19, 4, false⟩ : AP).step = 0 ∧ hourOfMoy 247425 = 19 ∧
     ¬ (⟨6, 21, 0, 6, 21, 19, 4, false⟩ : AP).Pred 247425 := by decide
+
+/-- **Recorded finding (wrapping header with an hour window)**: under the header 12/30 – 1/2 0..12
+    the values at 2 Jan 15:00 and 1 Jun 00:00 yield the period 12/30 – 1/2 0..15 (evaluated below);
+    1 Jun 00:00 (minute 217440 of the year) is not a step of it. -/
+theorem C13_validate_wrapping_window_counterexample :
+    ¬ (⟨12, 30, 0, 1, 2, 15, 1, false⟩ : AP).Pred 217440 := by decide
+
+#guard (validateHourly ⟨12, 30, 0, 1, 2, 12, 1, false⟩ false [(2340, 1), (217440, 2)]).toOption.map (·.ap)
+  = some ⟨12, 30, 0, 1, 2, 15, 1, false⟩
 
 /-! ### Culling -/
 
@@ -312,6 +743,41 @@ theorem C13_holes_partial (ap : AP) (data : List (Nat × Rat)) (r : List Rat)
       r = List.replicate lead v0 ++ mid ++ List.replicate k vl ∧ Filled vl data mid := by
   obtain ⟨lead, k, mid, m0, v0, ml, vl, h1, h2, h3, h4, h5, h6, h7⟩ := interpolateHoles_ok ap data r h
   exact ⟨h5, h6, h7, lead, k, mid, m0, v0, ml, vl, h1, h2, h3, h4⟩
+
+/-- **Hole filling at full strength.**  `ap` any well-formed period with the hour window 0..23 –
+    wrapping the year end or not, any timestep, leap or not.  The collection holds the values
+    `p.2` at the step numbers `p.1` of the period (`idx`: any non-empty strictly increasing
+    selection of steps, i.e. any validated collection of that period; `dataOf ap idx` are its
+    (datetime, value) pairs).  Then `interpolate_holes` succeeds and its result `r`
+    * has one value per step of the period (`r.length = len(period)`),
+    * equals the source at every source step (`r[p.1] = p.2`),
+    * copies the first source value over a leading hole and the last one over a trailing hole,
+    * and at every step strictly between two consecutive source steps holds a value between the
+      two neighbouring source values.
+    Values are rationals (any ordered field would do); the year-end case is the one the repaired
+    modulo arithmetic (fixes/C13_interpolate_holes_year_wrap.patch) makes work. -/
+theorem C13_holes (ap : AP) (hwf : ap.WF) (h0 : ap.st_hour = 0) (h23 : ap.end_hour = 23)
+    (idx : List (Nat × Rat)) (hinc : (idx.map (·.1)).Pairwise (· < ·))
+    (hlt : ∀ p ∈ idx, p.1 < ap.len) (first last : Nat × Rat)
+    (hfirst : idx.head? = some first) (hlast : idx.getLast? = some last) :
+    ∃ r, interpolateHoles ap true (dataOf ap idx) = .ok r ∧ r.length = ap.len ∧
+      (∀ p ∈ idx, r[p.1]? = some p.2) ∧
+      (∀ k, k < first.1 → r[k]? = some first.2) ∧
+      (∀ k, last.1 < k → k < ap.len → r[k]? = some last.2) ∧
+      (∀ q ∈ idx.zip idx.tail, ∀ k, q.1.1 < k → k < q.2.1 →
+        ∃ x, r[k]? = some x ∧ min q.1.2 q.2.2 ≤ x ∧ x ≤ max q.1.2 q.2.2) :=
+  holes_full ap hwf h0 h23 idx hinc (fun p hp => by rw [← AP.C04_len ap hwf]; exact hlt p hp)
+    first last hfirst hlast
+
+/-- **The steps of a whole-day period are equally spaced** (what `C13_holes` rests on, from the C04
+    theorems): step number `i` is `(start + i · step) mod year`, through the year end as well. -/
+theorem C13_period_steps_equally_spaced (ap : AP) (hwf : ap.WF) (h0 : ap.st_hour = 0)
+    (h23 : ap.end_hour = 23) (i : Nat) (hi : i < ap.moys.length) :
+    ap.moys[i]? = some ((ap.stMoy + i * ap.step) % minutesInYear ap.leap) :=
+  (moys_grid ap hwf h0 h23).2.2.2.1 i hi
+
+-- `dataOf`: steps 22 (31 Dec 22:00) and 26 (1 Jan 02:00) of the period 12/31 – 1/1
+#guard dataOf ⟨12, 31, 0, 1, 1, 23, 1, false⟩ [(22, 10), (26, 40)] = [(364 * 1440 + 1320, 10), (120, 40)]
 
 /-- **Filled values lie between their neighbours** (the fact behind `Filled`): every value of
     `_xxrange(a, b, n)` is between `a` and `b`, in any ordered field of values (here `Rat`). -/
